@@ -72,9 +72,9 @@ def pub_case(c):
     obs = L(['(PObs %s %s %s %s %s %s)' % (N(k['topic']), L([pmsg(m) for m in k['before']]), L([pevent(e) for e in k['ev']]),
                                            optN(k['answer']), optN(k['res']), L([pmsg(m) for m in k['after']])) for k in c['calls']])
     cl = c['close']
-    return '(PubCase %s %s %s %s %s %s %s (%d, %s, %s))' % (
+    return '(PubCase %s %s %s %s %s %s %s (%d, %s))' % (
         L([pdec(d) for d in c['stack']]), L([pmsg(m) for m in c['heap']]), L([optN(s) for s in c['script']]), calls, obs,
-        tab3(c['tab']), L([pmsg(m) for m in c['final']]), cl[0], optN(cl[1]), optN(cl[2]))
+        tab3(c['tab']), L([pmsg(m) for m in c['final']]), cl[0], L(['(%s, %s)' % (optN(r[0]), optN(r[1])) for r in cl[1]]))
 
 def sdec(d):
     return '(STransform %s)' % N(d[1]) if d[0] == 'T' else '(SMetrics %s)' % N(d[1])
